@@ -22,6 +22,10 @@ L8 — seed/target correspondence as a function of values:
 * `by_address_counterexample` — taking seed i's transform from target row `first + i`: seed = target[1::2] of 4 rows gives
   rows 1, 2 instead of 1, 3.   `by_address_right_on_consecutive_rows` — right only for step 1.
 * `analyzers_never_probe_memory` — GENERATED.
+
+Complex recordings (wave-6 class): `fftshift_matches_labels` (position k of `fftshift(fft x)` shows the DFT bin that the label
+`(k − n//2)·Fs/n` names, every n), `ifftshift_matches_labels_iff_even` (the `ifftshift` reading is right iff n is even, n > 1),
+`ifftshift_odd_counterexample`, `spectrum_shift_is_fftshift` (GENERATED).
 -/
 import Nitime.Model.C15Obj
 import Nitime.Lemmas.GrangerObj
@@ -271,6 +275,57 @@ theorem by_address_right_on_consecutive_rows {V C : Type} (pair : V → V → C)
     simp [hi, h1]
   · have : seed.length ≤ i := Nat.le_of_not_lt hi
     simp [hi]
+
+/-! ### complex-valued recordings: the two-sided Fourier spectrum against its frequency axis -/
+open Nitime.C15.Shift
+
+theorem add_mod_small (n k a : Nat) (hk : k < n) (ha : a ≤ n) :
+    (k + a) % n = if k + a < n then k + a else k + a - n := by
+  split
+  · next h => exact Nat.mod_eq_of_lt h
+  · next h =>
+    rw [Nat.mod_eq_sub_mod (by omega)]
+    exact Nat.mod_eq_of_lt (by omega)
+
+theorem labelBin_eq (n k : Nat) (hk : k < n) :
+    labelBin n k = if n / 2 ≤ k then k - n / 2 else k + n - n / 2 := by
+  unfold labelBin
+  generalize hm : n / 2 = m
+  have hmn : m ≤ n := hm ▸ Nat.div_le_self n 2
+  split
+  · next h =>
+    have : ((k : Int) - (m : Int)) % (n : Int) = (k : Int) - (m : Int) := Int.emod_eq_of_lt (by omega) (by omega)
+    rw [this]; omega
+  · next h =>
+    have : ((k : Int) - (m : Int)) % (n : Int) = (k : Int) - (m : Int) + (n : Int) := by
+      rw [← Int.add_emod_right ((k : Int) - (m : Int)) (n : Int)]
+      exact Int.emod_eq_of_lt (by omega) (by omega)
+    rw [this]; omega
+
+theorem fftshift_matches_labels (n k : Nat) (hk : k < n) : fftshiftSrc n k = labelBin n k := by
+  rw [labelBin_eq n k hk]
+  unfold fftshiftSrc
+  rw [add_mod_small n k (n - n / 2) hk (Nat.sub_le _ _)]
+  have := Nat.div_le_self n 2
+  split <;> split <;> omega
+
+theorem ifftshift_matches_labels_iff_even (n k : Nat) (hn : 1 < n) (hk : k < n) :
+    ifftshiftSrc n k = labelBin n k ↔ n % 2 = 0 := by
+  rw [labelBin_eq n k hk]
+  unfold ifftshiftSrc
+  rw [add_mod_small n k (n / 2) hk (Nat.div_le_self n 2)]
+  by_cases h1 : k + n / 2 < n <;> by_cases h2 : n / 2 ≤ k <;> simp only [h1, h2, if_true, if_false]
+  all_goals (constructor <;> intro h <;> omega)
+
+/-- GENERATED: the only spectrum re-ordering call of the analyzers is `fftshift` (so `fftshift_matches_labels` applies:
+position k of the two-sided spectrum shows the DFT bin its frequency label names, for EVERY length, odd or even) -/
+theorem spectrum_shift_is_fftshift :
+    Nitime.Generated.AnalyzerState.shiftCalls.map Prod.snd = ["fftshift"] ∧ Shift.codeVouched = true := by
+  refine ⟨by decide, by decide⟩
+
+/-- the `ifftshift` reading is off by one bin for odd lengths: n = 5, position 0 is labelled bin 3 (−2·Fs/5) and shows bin 2 -/
+theorem ifftshift_odd_counterexample : ifftshiftSrc 5 0 = 2 ∧ labelBin 5 0 = 3 ∧ fftshiftSrc 5 0 = 3 := by
+  refine ⟨by decide, by decide, by decide⟩
 
 /-- GENERATED: no analyzer (and not the reader) looks at `.base`, `.strides`, addresses, `shares_memory` or object identity -/
 theorem analyzers_never_probe_memory :
